@@ -9,7 +9,7 @@ pub fn prop() -> Prop {
     Prop {
         id: "C18",
         level: "model_checking",
-        rule: "every corrupted configuration alone and next to each of 8 valid neighbour options (--take 0/1, --skip, --unique, --merge, --only-objects-and-arrays, a regex cache, --on-error=panic); valid configurations = 7 option positions (--select, --filter, --split-by, --group-by, --sort-by, --set variable, --set macro) x 8 base expressions x 6 output styles (+ every pure function with a canonical argument list in every position, json style); corruptions (one fault each): truncation at EVERY byte offset that lies inside parentheses or a string, one '(' or ')' too many, unknown function name, arity min-1 / max+1 for every function, trailing garbage of 4 kinds, bad sort directions, malformed --set (no '=', empty name, empty macro name, duplicate, empty value), output options of another style, csv without selections / with grouping / with merge, --headers without selections, invalid enum and numeric option values; non-trivial = the uncorrupted configuration runs Ok and prints >= 1 byte; distinct by construction",
+        rule: "(8 base expressions and 3 big ones: nesting depth 33, a 300-character literal, 130 arguments) every foreign output option next to every option of the style's own group; every corrupted configuration alone and next to each of 8 valid neighbour options (--take 0/1, --skip, --unique, --merge, --only-objects-and-arrays, a regex cache, --on-error=panic); valid configurations = 7 option positions (--select, --filter, --split-by, --group-by, --sort-by, --set variable, --set macro) x 8 base expressions x 6 output styles (+ every pure function with a canonical argument list in every position, json style); corruptions (one fault each): truncation at EVERY byte offset that lies inside parentheses or a string, one '(' or ')' too many, unknown function name, arity min-1 / max+1 for every function, trailing garbage of 4 kinds, bad sort directions, malformed --set (no '=', empty name, empty macro name, duplicate, empty value), output options of another style, csv without selections / with grouping / with merge, --headers without selections, invalid enum and numeric option values; non-trivial = the uncorrupted configuration runs Ok and prints >= 1 byte; distinct by construction",
         explanation: "each corrupted configuration is executed on a non-empty input; oracle: Err (or clap usage error), zero bytes on stdout, the stdin factory is never invoked",
         assumptions: COMMON_ASSUMPTIONS.to_vec(),
         guards: vec!["with-a-neighbour-option", "truncation", "arity", "trailing-garbage", "set-malformed", "style-mismatch", "csv-without-selection", "valid-config-prints"],
@@ -77,8 +77,31 @@ fn with_expr(pos: &str, e: &str, style: usize) -> Vec<String> {
     a
 }
 
+/// the 8 base expressions plus three big ones (depth 33, a 300-character literal, 130 arguments)
+fn all_bases() -> Vec<&'static str> {
+    let mut v: Vec<&'static str> = BASES.to_vec();
+    let mut deep = ".n".to_string();
+    for _ in 0..33 {
+        deep = format!("(+ 1 {deep})");
+    }
+    v.push(Box::leak(deep.into_boxed_str()));
+    v.push(Box::leak(format!("(concat \"{}\" .s)", "q".repeat(300)).into_boxed_str()));
+    v.push(Box::leak(format!("(+ {} .n)", (1..=130).map(|i| i.to_string()).collect::<Vec<_>>().join(" ")).into_boxed_str()));
+    v
+}
+
 /// byte offsets at which cutting the expression leaves it inside parentheses or inside a string
+/// (for a long expression: the first and last 24 such offsets and those around 32, 64, 128, 256)
 fn bad_cuts(e: &str) -> Vec<usize> {
+    let all = bad_cuts_all(e);
+    if e.len() <= 80 {
+        return all;
+    }
+    let n = e.len();
+    all.into_iter().filter(|c| *c < 24 || *c + 24 >= n || [31usize, 32, 33, 63, 64, 65, 127, 128, 129, 255, 256, 257].contains(c)).collect()
+}
+
+fn bad_cuts_all(e: &str) -> Vec<usize> {
     let b = e.as_bytes();
     let mut cuts = Vec::new();
     let mut depth = 0i32;
@@ -172,7 +195,7 @@ fn canonical_args(f: &ftable::F) -> Vec<&'static str> {
 fn run(ctx: &mut Ctx) {
     // 1. expression corruptions in every position and style
     for (pi, pos) in POSITIONS.iter().enumerate() {
-        for (bi, base) in BASES.iter().enumerate() {
+        for (bi, base) in all_bases().iter().enumerate() {
             for style in 0..STYLES.len() {
                 if !ctx.mine() {
                     continue;
@@ -338,6 +361,40 @@ fn run(ctx: &mut Ctx) {
                 let mut x: Vec<String> = a.iter().map(|s| s.to_string()).collect();
                 x.extend(extra.iter().map(|s: &&str| s.to_string()));
                 judge(ctx, "style-mismatch", name, x, true);
+            }
+        }
+        // a foreign option stays foreign whatever option of the style's own group stands next to it
+        let jopts = ["--style=pretty", "--style=consise", "--utf8-strings"];
+        let topts = ["--headers", "--items-seperator=;", "--string-prefix=<", "--string-postfix=>", "--null-keyword=x", "--true-keyword=x", "--false-keyword=x", "--missing-value-keyword=x", "--escape-sequance=ab"];
+        for j in jopts {
+            for t in std::iter::once("").chain(topts.iter().copied()) {
+                let mut x: Vec<String> = vec!["--output-style=text".into(), "--select=.k=K".into(), j.to_string()];
+                if !t.is_empty() {
+                    x.push(t.to_string());
+                }
+                ctx.guard("style-mismatch");
+                judge(ctx, "style-mismatch", &format!("text + {j} + {t}"), x.clone(), true);
+                x.reverse();
+                judge(ctx, "style-mismatch", &format!("reversed: text + {j} + {t}"), x, true);
+                let mut y: Vec<String> = vec!["--output-style=csv".into(), "--select=.k=K".into(), j.to_string()];
+                if !t.is_empty() {
+                    y.push(t.to_string());
+                }
+                judge(ctx, "style-mismatch", &format!("csv + {j} + {t}"), y, true);
+            }
+        }
+        for t in topts {
+            for j in std::iter::once("").chain(jopts.iter().copied()) {
+                for style in ["", "--output-style=json"] {
+                    let mut x: Vec<String> = vec!["--select=.k=K".into(), t.to_string()];
+                    if !j.is_empty() {
+                        x.push(j.to_string());
+                    }
+                    if !style.is_empty() {
+                        x.push(style.to_string());
+                    }
+                    judge(ctx, "style-mismatch", &format!("json + {t} + {j}"), x, true);
+                }
             }
         }
         let csvs: Vec<(&str, Vec<&str>)> = vec![
